@@ -634,9 +634,11 @@ fn scenario(run: &mut Run, dir: &str, state: &str, p: &mut Prng, closed_phase: b
 	s.node.down.store(false, std::sync::atomic::Ordering::Relaxed);
 
 	if closed_phase {
-		// the refresh variants while the updater flag is stuck (thread refused, flag set)
-		let t = token_of(2, &mtok, &otok, p);
-		row(run, &s, &wm, &mut cm, state, "start_updater", 0, true, true, 2, t.as_ref(), false);
+		// the refresh variants while an updater thread (started with the right token) is running: the
+		// retrieve_* calls then leave the refresh to it. (Before the fix that clears the flag of an
+		// updater that gives up, a thread refused for its token left the same flag set for good.)
+		row(run, &s, &wm, &mut cm, state, "start_updater", 0, true, true, 0, mtok.as_ref(), false);
+		std::thread::sleep(Duration::from_millis(150));
 		for m in ["retrieve_outputs", "retrieve_txs", "retrieve_summary_info", "retrieve_payment_proof"].iter() {
 			for kind in [1u64, 2, 3, 4].iter() {
 				let t = token_of(*kind, &mtok, &otok, p);
